@@ -73,6 +73,8 @@ pub enum Op {
     RequestRemoteCanonical { its: u8, asset: u8 },
     /// ... through the (deployer, salt) entry point
     RequestRemoteInterchain { its: u8, deployer: u8, salt: u8 },
+    /// the owner upgrades one of the services and completes the migration: the registry is carried over
+    UpgradeAndMigrate { its: u8 },
 }
 
 #[derive(Clone, Debug, Serialize, Deserialize)]
@@ -128,6 +130,7 @@ fn op() -> impl Strategy<Value = Op> {
         1 => (1u8..60).prop_map(Op::AdvanceDays),
         1 => (0u8..2, 0u8..4).prop_map(|(its, asset)| Op::RequestRemoteCanonical { its, asset }),
         1 => (0u8..2, 0u8..2, 0u8..2).prop_map(|(its, deployer, salt)| Op::RequestRemoteInterchain { its, deployer, salt }),
+        1 => (0u8..2).prop_map(|its| Op::UpgradeAndMigrate { its }),
     ]
 }
 
@@ -204,7 +207,7 @@ impl Property for C11 {
 
         for (step, op) in case.ops.iter().enumerate() {
             let si = match op {
-                Op::DeployLocal { its, .. } | Op::RegisterCanonical { its, .. } | Op::RemoteDeploy { its, .. } | Op::RequestRemoteCanonical { its, .. } | Op::RequestRemoteInterchain { its, .. } => {
+                Op::DeployLocal { its, .. } | Op::RegisterCanonical { its, .. } | Op::RemoteDeploy { its, .. } | Op::RequestRemoteCanonical { its, .. } | Op::RequestRemoteInterchain { its, .. } | Op::UpgradeAndMigrate { its } => {
                     *its as usize % 2
                 }
                 Op::AdvanceDays(_) => 0,
@@ -387,6 +390,10 @@ impl Property for C11 {
                         svcs[si].reg.insert(want_id, Entry { addr: a.clone(), native: false });
                         svcs[si].order.push(want_id);
                     }
+                }
+                Op::UpgradeAndMigrate { .. } => {
+                    upgrade_and_migrate(env, &svcs[si].id).map_err(|e| format!("step {}: {}", step, e))?;
+                    cx.label("upgrade_and_migration_in_history");
                 }
                 Op::RequestRemoteCanonical { asset, .. } => {
                     let s = &svcs[si];
